@@ -159,6 +159,11 @@ class TlsWorld(World):
     def closed(self):
         return self.conns[0].closed[self.ridx]
 
+    def received(self):
+        '''Transfer ids the endpoint lists as received (read over the bus).'''
+        res = self.bus_call(self.procs['R'], PATH, 'recv_bundle_get_queue', iface=IFACE)
+        return [str(x) for x in res[1]] if res[0] == 'ok' else []
+
     def params_view(self):
         proc = self.procs['R']
         if PATH not in proc.bus._objects:
@@ -636,6 +641,16 @@ def run_table2(params, known):
                     viol('no-contact-failure-termination', dict(), repr(obs), row)
                 elif obs['term_reason'] is not None and obs['term_reason'] != 4:
                     viol('termination-reason-not-contact-failure', dict(), repr(obs), row)
+                if not obs['closed'] and not obs['established']:
+                    # the refused peer goes on regardless and sends a bundle: no session exists, nothing of it is taken
+                    world.peer_write(T.enc_segment(3, 1, b'intruder', [T.ext_total_length(8)]))
+                    world.quiesce()
+                    (msgs, _rest) = T.parse_all(world.out, with_contact=True)
+                    if any(m['kind'] == 'XFER_ACK' for m in msgs) or world.received():
+                        viol('transfer-accepted-from-a-refused-peer', dict(), 'after the refusal a segment was acknowledged: %r, receive queue %r'
+                             % ([m['kind'] for m in msgs], world.received()), row)
+                    elif world.escaped:
+                        viol('exception-escaped-callback', dict(exc=world.escaped[-1][0]), '%s: %s' % world.escaped[-1][:2], row)
             if len(samples) < 1 and sans:
                 samples.append(dict(row=row, observed=obs, allowed=allowed))
     return dict(name=params['name'], evaluations=count, nontrivial_keys=sorted(keys), violations=violations, known=[], samples=samples)
